@@ -350,3 +350,135 @@ class CallGraph:
             if v not in index:
                 strong(v)
         return out
+
+
+class Flat:
+    """A function seen together with the private helpers it delegates to (same crate, followed `depth` levels):
+    the unit over which "what is called, with what, in which order" is decided, so that extracting a block into a
+    helper function does not change the verdict.
+
+    Every node has an owner fn and a *proxy*: the node of the entry fn through which control reaches it (the node
+    itself for nodes of the entry fn, otherwise the call of the outermost helper).  Values are evaluated with the
+    helper's parameters bound to the caller's argument terms, so the entry's own parameters stay symbolic."""
+
+    def __init__(self, ctx, fn, depth=2, crate_prefix=None):
+        self.ctx = ctx
+        self.fn = fn
+        self.prefix = crate_prefix or fn.key.split('::')[0] + '::'
+        self.entries = []          # (owner, node, proxy)
+        self.owner = {}
+        self.proxy = {}
+        self.caller = {}           # helper key -> (caller owner, call node)
+        self._envs = {}
+        self._add(fn, fn.body, None, depth, {fn.key})
+
+    def _add(self, owner, body, proxy, depth, seen):
+        for n in walk(body):
+            px = proxy if proxy is not None else n
+            self.entries.append((owner, n, px))
+            self.owner[id(n)] = owner
+            self.proxy[id(n)] = px
+            if depth > 0 and n['k'] in ('call', 'mcall'):
+                for lf in self.ctx.pv.local_fns(n.get('callee')):
+                    if lf.key in seen or lf.from_macro or not lf.key.startswith(self.prefix):
+                        continue
+                    seen.add(lf.key)
+                    self.caller[lf.key] = (owner, n)
+                    self._add(lf, lf.body, px, depth - 1, seen)
+
+    # ---- lookup -------------------------------------------------------------------------------
+    def nodes(self, pred):
+        return [n for o, n, p in self.entries if pred(n)]
+
+    def calls(self):
+        return [n for o, n, p in self.entries if n['k'] in ('call', 'mcall')]
+
+    def mcalls(self, *methods):
+        return [n for o, n, p in self.entries if n['k'] == 'mcall' and (not methods or n['method'] in methods)]
+
+    def calls_to(self, *suffixes):
+        return [n for n in self.calls() if any(p.endswith(suffixes) for p in callee_paths(n))]
+
+    def calls_of(self, lfn):
+        return [n for n in self.calls() if lfn in self.ctx.pv.local_fns(n.get('callee'))]
+
+    def owner_of(self, n):
+        return self.owner.get(id(n), self.fn)
+
+    # ---- values -------------------------------------------------------------------------------
+    def env_of(self, owner):
+        if owner.key in self._envs:
+            return self._envs[owner.key]
+        if owner is self.fn or owner.key not in self.caller:
+            env = sym_env(owner)
+        else:
+            cowner, call = self.caller[owner.key]
+            cenv = self.env_of(cowner)
+            args = ([call['recv']] if call['k'] == 'mcall' else []) + call['args']
+            terms = [self.ctx.pv.eval(cowner, a, cenv, 0) for a in args]
+            env = {}
+            self.ctx.pv.bind_params(owner, owner.params, terms, env, 0)
+        self._envs[owner.key] = env
+        return env
+
+    def eval(self, n):
+        o = self.owner_of(n)
+        return self.ctx.pv.eval(o, n, self.env_of(o), 0)
+
+    # ---- order / consumption ----------------------------------------------------------------------
+    def precedes(self, a, b):
+        oa, ob = self.owner_of(a), self.owner_of(b)
+        if oa is ob:
+            return precedes(oa, a, b)
+        pa, pb = self.proxy[id(a)], self.proxy[id(b)]
+        if pa is pb:
+            return False, 'reached through the same call'
+        # a inside a helper must be unconditional there for the helper call to stand for it
+        if oa is not self.fn:
+            cc = [c[0] for c in conditional_context(oa, a)]
+            if cc:
+                return False, 'conditional inside %s (%s)' % (oa.path.split('::')[-1], ','.join(cc))
+        # proxies live in the entry fn (or in a common intermediate helper: compare there)
+        fa = self.owner_of(pa)
+        return precedes(fa, pa, pb)
+
+    def consumption(self, n):
+        o = self.owner_of(n)
+        kind, det = consumption(o, n)
+        hops = 0
+        while kind == 'returned' and o is not self.fn and o.key in self.caller and hops < 4:
+            hops += 1
+            o, n = self.caller[o.key]
+            kind, det = consumption(o, n)
+        return kind, det
+
+    def path_conds(self, n):
+        """path conditions of n inside its owner plus those of the calls leading to the owner (outermost first)"""
+        o = self.owner_of(n)
+        out = [(o, pc) for pc in P.path_conds(o, n)]
+        hops = 0
+        while o is not self.fn and o.key in self.caller and hops < 4:
+            hops += 1
+            o, n = self.caller[o.key]
+            out = [(o, pc) for pc in P.path_conds(o, n)] + out
+        return out
+
+
+ITER_CONSUMERS = ('fold', 'try_fold', 'for_each', 'try_for_each', 'map', 'flat_map', 'filter_map', 'scan')
+
+
+def iteration_of(fn, node):
+    """the collection expression over whose elements `node` is executed: the `iter` of an enclosing `for`, or the
+    receiver of the iterator method (fold / for_each / map ...) whose closure contains node.  (kind, expr) or None"""
+    for parent, role, child in fn.ancestors(node):
+        k = parent.get('k')
+        if k == 'for' and role == 'body':
+            return ('for', parent['iter'])
+        if k == 'closure':
+            pr = fn.parent.get(id(parent))
+            while pr and pr[0] is not None and pr[0].get('k') in ('wrap', 'ref'):
+                pr = fn.parent.get(id(pr[0]))
+            if pr and pr[0] is not None and pr[0].get('k') == 'mcall' and pr[0]['method'] in ITER_CONSUMERS:
+                return (pr[0]['method'], pr[0]['recv'])
+            return None
+    return None
